@@ -43,12 +43,13 @@ func Unpack(buf []byte, dotu bool) (fc *Fcall, fcsz int, err error) {
 
 	var sz uint32
 	if dotu {
-		sz = minFcsize[fc.Type-Tversion]
-	} else {
 		sz = minFcusize[fc.Type-Tversion]
+	} else {
+		sz = minFcsize[fc.Type-Tversion]
 	}
 
-	if fc.Size < sz {
+	/* the tables hold body sizes: compare without the size[4] type[1] tag[2] header */
+	if fc.Size-7 < sz {
 		goto szerror
 	}
 
